@@ -72,6 +72,65 @@ const SPARSE: &str = "2g
  +-----------------+
    a b c d e f g h";
 
+/// States reached by ONE step from positions that can be parsed but not reached (several unsupported pieces already on
+/// traps: the step removes them all at once): the state after the step against each of its one-square neighbours built
+/// from scratch with the public constructors.  The statement is about play-phase states that differ in exactly one hashed
+/// feature; an incremental update that loses a square makes the reached state collide with such a neighbour.
+pub fn run_ft_successors(prop: &str) -> FamilyResult {
+    use rayon::prelude::*;
+    let t0 = Instant::now();
+    let fam_def = families::ftraps();
+    let fam = format!("E5 successors of {} — each compared with its 64 x 12 one-square neighbours", fam_def.name);
+    let fam2 = fam.clone();
+    let contents: Vec<rm::Cell> = std::iter::once(rm::EMPTY).chain((0..12).map(families::kind_cell)).collect();
+    let st = (0..fam_def.n)
+        .into_par_iter()
+        .fold(Stats::default, |mut st, idx| {
+            if report::stopped() {
+                return st;
+            }
+            let (board, gold) = match (fam_def.decode)(idx) {
+                Some(x) => x,
+                None => return st,
+            };
+            let r = catch_unwind(AssertUnwindSafe(|| {
+                let root = crate::glue::state_from_board(&board, gold, 2);
+                for a in root.valid_actions() {
+                    let t = root.take_action(&a);
+                    let tb = match crate::glue::board_from_engine(t.piece_board()) {
+                        Ok(b) => b,
+                        Err(_) => continue,
+                    };
+                    let (tgold, tstep) = (t.is_p1_turn_to_move(), t.current_step());
+                    let status = t.as_play_phase().map_or(PushPullState::None, |p| p.push_pull_state());
+                    let h = t.transposition_hash();
+                    st.states += 1;
+                    for sq in 0..64usize {
+                        for &c in contents.iter() {
+                            if c == tb[sq] {
+                                continue;
+                            }
+                            let mut nb = tb;
+                            nb[sq] = c;
+                            st.transitions += 1;
+                            if build(&nb, tgold, tstep, status).transposition_hash() == h {
+                                viol(prop, &fam2, "C17: the state reached by a step and a state that differs from it in the content of one square have the same hash", format!("{}then {}", rm::diagram(&board, gold, 2), a), format!("neighbour differs on {}", rm::sq_name(sq)));
+                            }
+                        }
+                    }
+                }
+            }));
+            if r.is_err() {
+                // a panic here is C19's business, not C17's
+                st.add("c17_ft_roots_that_panicked", 1);
+            }
+            st.roots += 1;
+            st
+        })
+        .reduce(Stats::default, Stats::merge);
+    FamilyResult { explorer: "E5".into(), family: fam, complete: !report::stopped(), note: String::new(), stats: st, wall_s: t0.elapsed().as_secs_f64() }
+}
+
 pub fn run(prop: &str, thorough: bool) -> FamilyResult {
     let t0 = Instant::now();
     let fam = "E5 complete hashed-feature table: every square x every pair of the 13 contents; every kind x every pair of squares; both sides; all step pairs; all C(641,2) pairs of push/pull statuses — in 3 board contexts (empty, sparse, 32-piece) x 2 sides x 4 steps".to_string();
